@@ -175,6 +175,15 @@ class Ctx:
         import hypothesis
         from hypothesis import given, seed
 
+        if self.thorough and max_examples > 400 and not label.startswith('__chunk'):
+            # thorough tier: explore in chunks, so that generation stops soon after the time budget is used up
+            # (Hypothesis keeps generating the requested number of examples even if the body returns at once)
+            k = 0
+            while k * 250 < max_examples and not self.out_of_time():
+                self.given(strategy, check_case, min(250, max_examples - k * 250), label=f'__chunk{k}:{label}', shrink=shrink)
+                k += 1
+            return
+
         seen_before = set(self.failures)
         st_seed = derive_seed(self.seed, label)
 
